@@ -13,6 +13,13 @@ Theorem renormalize_keeps_user_meaning : forall L v,
 Proof. exact Proofs.renormalize_keeps_user_meaning. Qed.
 Print Assumptions renormalize_keeps_user_meaning.
 
+(* instancing preserves the ORDER of locations along a restricted axis: the new normalised coordinate is strictly increasing in the old *)
+Theorem renormalize_increasing : forall L v1 v2,
+  amin L < adef L -> adef L < amax L -> 0 < dneg L -> 0 < dpos L -> amin L <= v1 -> v1 < v2 -> v2 <= amax L ->
+  renormalizeValue L v1 < renormalizeValue L v2.
+Proof. exact Proofs.renormalize_increasing. Qed.
+Print Assumptions renormalize_increasing.
+
 (* PINNING an axis (min = default = max): rebaseTent leaves at most the always-on delta set, scaled by the tent's value at the pin --
    for every tent shape, on either side of the pin, clipped or not; a pinned axis therefore disappears from the variation data *)
 Theorem rebase_pin : forall t L sols, no_straddle t -> amin L == adef L -> amax L == adef L ->
